@@ -66,7 +66,7 @@ theorem parseAttribute_attrL (pos : Nat) (p l v sp : StrSpan) (w e1 e2 : Str) (b
     ∃ p' l' v' sp' pos', parseAttribute ⟨pos, w ++ (tokQName p.text l.text ++
         (e1 ++ '=' :: (e2 ++ quoteChar b :: (v.text ++ quoteChar b :: r))))⟩ =
           some (.attribute p' l' v' sp', ⟨pos', r⟩) ∧
-      (Token.attribute p' l' v' sp').erase = (Token.attribute p l v sp).erase := by
+      (Token.attribute p' l' v' sp').ReadAs (Token.attribute p l v sp) := by
   obtain ⟨qc, qs, hq, hqc⟩ := tokQName_head h
   have hrest : Stops isXmlSpace (tokQName p.text l.text ++
       (e1 ++ '=' :: (e2 ++ quoteChar b :: (v.text ++ quoteChar b :: r)))) := by
@@ -92,7 +92,7 @@ theorem parseAttribute_attrL (pos : Nat) (p l v sp : StrSpan) (w e1 e2 : Str) (b
   simp only [parseAttribute, hsp, es, hc1, hc2, Bool.false_eq_true, if_false, Bool.not_true,
     Option.bind_eq_bind, consumeQName_app _ h heq, Option.bind_some, consumeEq_ws _ h1 h2 hs3,
     consumeQuote_q, e5, consumeByte_self]
-  refine ⟨_, _, _, _, _, rfl, ?_⟩
+  refine ⟨_, _, _, _, _, rfl, ?_, by simp [Token.prefixOk, placeQName_bareColon]⟩
   simp only [Token.erase, (placeQName_erase _ p l).1, (placeQName_erase _ p l).2]
   rw [sliceBack_eq v.text rfl]
   rfl
@@ -117,7 +117,7 @@ theorem parseAttribute_emptyL (pos : Nat) (w r : Str) (hw : isWs w = true) :
 theorem parseCloseElement_L (pos : Nat) (p l sp : StrSpan) (w r : Str)
     (h : qnameOK p.text l.text = true) (hw : isWs w = true) :
     ∃ t' pos', parseCloseElement ⟨pos, '<' :: '/' :: (tokQName p.text l.text ++ (w ++ '>' :: r))⟩ =
-        some (t', ⟨pos', r⟩) ∧ t'.erase = (Token.elementEnd (.close p l) sp).erase := by
+        some (t', ⟨pos', r⟩) ∧ t'.ReadAs (Token.elementEnd (.close p l) sp) := by
   have hgt : Stops isNameChar (w ++ '>' :: r) :=
     stops_ws_app (fun _ => space_not_nameChar) hw (Stops.cons r (by decide))
   have hsp : Stops isXmlSpace ('>' :: r) := Stops.cons r (by decide)
@@ -128,7 +128,7 @@ theorem parseCloseElement_L (pos : Nat) (p l sp : StrSpan) (w r : Str)
     rfl
   simp only [parseCloseElement, Option.bind_eq_bind, e2, consumeQName_app (pos + 2) h hgt,
     Option.bind_some, skipSpaces_ws _ hw hsp, consumeByte_self]
-  refine ⟨_, _, rfl, ?_⟩
+  refine ⟨_, _, rfl, ?_, by simp [Token.prefixOk, placeQName_bareColon]⟩
   simp only [Token.erase, (placeQName_erase _ p l).1, (placeQName_erase _ p l).2]
 
 /-! ### Processing instructions -/
